@@ -46,7 +46,7 @@ RULE = (
     "object, int>bool, float, str, list, set, frozenset, dict, tuple, type, NoneType, Callable, A>B>C, D; "
     "quick: ~2500 pairs = exhaustive-depth-1 sample + random depth<=2 + related pairs (input derived from the output "
     "by generalising steps, so that accepted pairs are frequent); thorough: ALL ordered pairs of the depth<=1 "
-    "enumeration over the small alphabet + 14000 random/related pairs to depth 3. Each pair: comparison both ways of "
+    "enumeration over the small alphabet + 65000 random/related pairs to depth 3. Each pair: comparison both ways of "
     "reflexivity, real Channel.connect / value_receiver, and valid_value of a witness pool (>=6 values incl. near "
     "misses) against both hints; half of the random pairs come from the restricted grammar on which no failure is "
     "excusable. non-trivial = the comparison answered and at least one side is not a bare class"
@@ -66,6 +66,12 @@ ASSUMPTIONS = [
     "hints appear only in the corpus (known finding KF-C04-5)",
 ]
 EXHAUSTIVE = {"quick": False, "thorough": True}
+EXPLANATION = (
+    "The tree's behaviour on four distinguishing probes (old-union expansion, literal leaf equality, isinstance-first "
+    "admission, empty-tuple rule) selects the model Cfg the correspondence is checked against; it is recorded as "
+    "histogram key variant:<abcd> (0000 = pinned, 1100 = both proposed patches, 1111 = Cfg.repaired). A tree that "
+    "matches no Cfg diverges."
+)
 
 
 # ----------------------------------------------------------------------------- the class lattice (real classes)
@@ -629,7 +635,7 @@ def gen_cases(rng, tier):
         for _ in range(n_enum):
             yield _pair(rng.choice(E1), rng.choice(E1), rng, "enum")
     else:
-        n_rand, n_rel, maxd = 5000, 9000, 3
+        n_rand, n_rel, maxd = 25000, 40000, 3
         for h in E1:
             for o in E1:
                 yield _pair(h, o, rng, "enum")
@@ -680,6 +686,16 @@ def corpus():
     yield P(["ty", ["c", "bool"]], ["ty", ["un", [I, S]]])
     yield P(["caP", ["int"], ["N"]], ["caP", ["int"], ["N"]])
     yield P(["tv", ["c", "bool"]], ["tv", I], 0)
+    # every class object against Callable arities (inspect.signature table of the model) and type[...]
+    allk = [["k", c] for c in CLS]
+    yield {**P(["caP", [], I], ["caP", ["int"], I]), "vals": allk}
+    yield {**P(["caP", ["int", "int"], I], ["caE", I]), "vals": allk}
+    yield {**P(["ty", ["c", "object"]], ["ty", ["uo", [["c", "Callable"], ["c", "A"], I]]]), "vals": allk}
+    yield {**P(["c", "Callable"], ["c", "type"]), "vals": allk + [["fn", 3, 3, 0], ["o", "A"]]}
+    # isinstance over unions walks the members in order and stops at the first hit
+    yield {**P(["un", [["li", I], S]], ["uo", [["li", I], S]]), "vals": [["s", "a"], ["i", 1], ["l", [["i", 1]]]]}
+    yield {**P(["un", [S, ["li", I]]], ["uo", [S, ["li", F]]]), "vals": [["s", "a"], ["i", 1], ["l", [["i", 1]]]]}
+    yield {**P(["uo", [F, ["lit", [["i", 1]]]]], ["uo", [F, I]]), "vals": [["i", 1], ["i", 2], ["b", True]]}
 
 
 # ----------------------------------------------------------------------------- implementation side
@@ -811,7 +827,7 @@ def run_impl(case):
     strict = case.get("strict", 1)
     vals = []
     seen = set()
-    for v in pool(th) + pool(to) + GLOBAL_POOL[:3]:
+    for v in list(case.get("vals", [])) + pool(th) + pool(to) + GLOBAL_POOL[:3]:
         try:
             real = build_val(v)
             av = abstract_val(real)
@@ -821,7 +837,7 @@ def run_impl(case):
             continue
         seen.add(repr(av))
         vals.append((av, real))
-    vals = vals[:22]
+    vals = vals[:22 + len(case.get("vals", []))]
     r_ho, r_hh, r_oo = _cmp(H, O), _cmp(H, H), _cmp(O, O)
     conn = _connect(H, O, strict, flip=False)
     conn2 = _connect(H, O, 1, flip=True)
@@ -886,9 +902,21 @@ def _unclean_literal(t):
     return False
 
 
+def _restricted(th, to) -> bool:
+    """the sub-grammar on which no failure is excusable (hypotheses of C04_sound_partial hold for every value)"""
+    for t in (th, to):
+        for s in subterms(t):
+            if s[0] == "uo" or s == ["tf", []] or s in (["c", "float"], ["c", "set"]):
+                return False
+            if s[0] == "lit" and any(x[0] == "b" for x in s[1]):
+                return False
+    return True
+
+
 def _facts(th, to):
     return {
         "old_union": any(s[0] == "uo" for t in (th, to) for s in subterms(t)),
+        "restricted": _restricted(th, to),
     }
 
 
@@ -902,7 +930,7 @@ def oracle(case, r):
 
     def fail(clause, detail, **sig):
         fails.append({"clause": clause, "detail": f"{detail}  [out={th} inp={to}]",
-                      "signature": {"clause": clause, "trigger": "cmp", **sig}})
+                      "signature": {"clause": clause, "trigger": "cmp", "restricted": facts["restricted"], **sig}})
 
     # (a) the comparison answers yes/no
     for name, res in (("cmp(out,inp)", r_ho), ("cmp(out,out)", r_hh), ("cmp(inp,inp)", r_oo)):
